@@ -193,6 +193,36 @@ macro_rules! groups {
             g.runb("boxed.wrapping_shl", || Some(ba.wrapping_shl(s)));
             g.runb("boxed.wrapping_shl_vartime", || Some(ba.wrapping_shl_vartime(s)));
             g.emit(cx, "wshl", bits, &[("a", &av)], &[("s", s as i64), ("pexp", bits as i64)]);
+            // ---- constants "like" an existing value: the value is the constant, the precision is the other's
+            {
+                use vh::cb::{Integer, Zero, BitOps};
+                let c = av[0] | 1;
+                let cv = vec![c];
+                let mut g = Grp::new();
+                g.run("uint.from_limb_like", || Some(w(&<Uint<N> as Integer>::from_limb_like(Limb(c), &b))));
+                g.run("uint.from_word", || Some(w(&Uint::<N>::from_word(c))));
+                g.runb("boxed.from_limb_like", || Some(<BoxedUint as Integer>::from_limb_like(Limb(c), &bb)));
+                g.runb("boxed.from_word+widen", || Some(BoxedUint::from(c).widen(bits as u32)));
+                g.emit(cx, "konst", bits, &[("a", &cv)], &[("pexp", bits as i64)]);
+                let mut g = Grp::new();
+                g.run("uint.ONE", || Some(w(&Uint::<N>::ONE)));
+                g.run("uint.one_like", || Some(w(&<Uint<N> as Integer>::one_like(&b))));
+                g.run("uint.Integer.one", || Some(w(&<Uint<N> as Integer>::one())));
+                g.runb("boxed.one_like", || Some(<BoxedUint as Integer>::one_like(&bb)));
+                g.runb("boxed.one_with_precision", || Some(BoxedUint::one_with_precision(bits as u32)));
+                g.emit(cx, "konst", bits, &[("a", &[1u64])], &[("pexp", bits as i64)]);
+                let mut g = Grp::new();
+                g.run("uint.ZERO", || Some(w(&Uint::<N>::ZERO)));
+                g.run("uint.zero_like", || Some(w(&<Uint<N> as Zero>::zero_like(&b))));
+                g.run("uint.set_zero", || { let mut t = b; Zero::set_zero(&mut t); Some(w(&t)) });
+                g.runb("boxed.zero_like", || Some(<BoxedUint as Zero>::zero_like(&bb)));
+                g.runb("boxed.zero_with_precision", || Some(BoxedUint::zero_with_precision(bits as u32)));
+                g.emit(cx, "konst", bits, &[("a", &[0u64])], &[("pexp", bits as i64)]);
+                let mut g = Grp::new();
+                g.run("uint.log2_bits", || Some(vec![BitOps::log2_bits(&a) as u64]));
+                g.run("boxed.log2_bits", || Some(vec![BitOps::log2_bits(&ba) as u64]));
+                g.emit(cx, "log2", bits, &[("a", &[bits as u64])], &[("pexp", 0)]);
+            }
             // ---- bit queries
             let mut g = Grp::new();
             g.run("uint.bits", || Some(vec![a.bits() as u64]));
